@@ -73,5 +73,5 @@ void h_AddPaths(void) { ClipperBase* s; PathsTok p; PathType t; bool o; AddPaths
 
 //@run name=CleanUp entry=h_CleanUp enforce=CleanUp replace=DeleteEdges,DisposeAllOutRecs flags="--bounds-check --pointer-check" timeout=120
 //@run name=Clear entry=h_Clear enforce=Clear replace=CleanUp,DisposeVerticesAndLocalMinima defs=UNIT_CLEAR flags="--bounds-check --pointer-check" timeout=120
-//@run name=Reset entry=h_Reset enforce=Reset replace=vf_stable_sort_minima,vf_insert_all_scanlines flags="--bounds-check --pointer-check" timeout=120
+//@run name=Reset entry=h_Reset enforce=Reset replace=vf_stable_sort_minima,vf_insert_all_scanlines flags="--bounds-check --pointer-check" timeout=120 props=C12,C11,C14
 //@run name=AddPaths entry=h_AddPaths enforce=AddPaths replace=AddPaths_ flags="--bounds-check --pointer-check" timeout=120 props=C12,C01,C14
